@@ -9,8 +9,13 @@ def roundtrip_case(prop, case, edges=False):
     j = case["inst"]
     inst = iolib.build(j)
     name = j["header"]["file_name"]
+    if case.get("unnamed"):
+        inst.file_name = ""           # an in-memory instance never given a name: write() names it after the file
     (w1, path) = iolib.write_impl(inst, name)
     obs = {"write1": w1}
+    if case.get("unnamed") and w1[0] == "ok":
+        obs["name_after_write"] = inst.file_name
+        obs["write1_again"] = iolib.write_impl(inst, name)[0]        # the same unchanged object written again
     if j["cls"] == "mat":
         obs["built"] = iolib.describe(inst)       # the graph as its public API shows it after the add_edge history
     if w1[0] != "ok":
@@ -60,6 +65,12 @@ def judge_roundtrip(prop, case, obs, replies, skip=()):
         P(f"write raised {w1}", "write/call")
         return out
     text = w1[1]
+    if case.get("unnamed"):
+        if obs.get("name_after_write") != j["header"]["file_name"]:
+            P(f"write() of an instance without file_name left file_name = {obs.get('name_after_write')!r} "
+              f"(documented: set according to the file path {j['header']['file_name']!r})", "write/file_name")
+        if obs.get("write1_again") != w1:
+            P("writing the same unchanged instance a second time gives a different file", "write/twice")
     mtext = replies[0]["text"]
     res = obs["parsed"]
     if res[0] != "ok":
@@ -110,6 +121,8 @@ def judge_roundtrip(prop, case, obs, replies, skip=()):
 
 def shrink_inst(case):
     j = case["inst"]
+    if case.get("unnamed"):
+        yield {k: v for k, v in case.items() if k != "unnamed"}
     key = {"ord": "orders", "cat": "preferences"}.get(j["cls"])
     if key:
         items = j["multiplicity"]
@@ -182,7 +195,10 @@ class C01(Prop):
                 inst = self.cls_gen(rng)
             finally:
                 iolib._exotic[0] = False
-            yield {"kind": "roundtrip", "inst": inst}
+            c = {"kind": "roundtrip", "inst": inst}
+            if rng.random() < 0.1:
+                c["unnamed"] = True
+            yield c
 
     def run_impl(self, case):
         if case["kind"] == "selftest":
